@@ -73,7 +73,7 @@ def fndaRecs (fs : List (Name × Fn)) : List Rec :=
   fs.map fun nf => .fnda (decDigits (if nf.2.executed then 1 else 0)) nf.1
 def brdaRecs (bs : List (Nat × List Bool)) : List Rec :=
   (brdaRecords bs).map fun r =>
-    .brda (decDigits r.1) (decDigits 0) (decDigits r.2.1) (if r.2.2 then [49] else [45])
+    .brda (decDigits r.1) false (decDigits 0) (decDigits r.2.1) (if r.2.2 then [49] else [45])
 def daRecs (ls : List (Nat × Nat)) : List Rec := ls.map fun lc => .da (decDigits lc.1) (decDigits lc.2) none
 /-- `FNF:n`, `FNH:n`, `BRF:n`, `BRH:n` -/
 def keyedSummary (key : Bytes) (n : Nat) : Rec := .otherKeyed key 58 (dec (n + 1) n)
